@@ -125,17 +125,20 @@ def pull_guards_rule(ctx: Ctx, rule: str) -> None:
     fref = f"{NODE}:TestNode.pull_locations"
     fn = ctx.repo.func(fref)
     ctx.touch(fref)
-    body = [s_ for s_ in fn.node.body if not (isinstance(s_, ast.Expr) and isinstance(s_.value, ast.Constant))]
+    from ..canon import inline_locals
+
+    node_i = inline_locals(fn.node)
+    body = [s_ for s_ in node_i.body if not (isinstance(s_, ast.Expr) and isinstance(s_.value, ast.Constant))]
     first = body[0] if body else None
     ok_flat = isinstance(first, ast.If) and norm.equivalent(norm.formula(first.test), ("atom", "self.is_flat()")) and len(first.body) == 1 and isinstance(first.body[0], ast.Return) and not first.orelse
-    comp = [l for l in ast.walk(fn.node) if isinstance(l, ast.For) and "cleanup_nodes[self]" in ast.unparse(l.iter)]
+    comp = [l for l in ast.walk(node_i) if isinstance(l, ast.For) and "cleanup_nodes[self]" in ast.unparse(l.iter)]
     ok = ok_flat and len(comp) == 1 and isinstance(comp[0].target, ast.Name)
     why = "the guards of pull_locations changed"
     if ok:
         l = comp[0]
         c = l.target.id
         ifs = [i for i in l.body if isinstance(i, ast.If)]
-        key = "f'get_location{object_suffix}'"
+        key = f"f'get_location_{{{c}.long_suffix}}'"
         want_net = norm.formula(ast.parse(f"{c}.key == 'nets'", mode="eval").body)
         want_dup = norm.formula(ast.parse(f"setup_location in self.params.get({key}, '')", mode="eval").body)
         want_has = norm.formula(ast.parse(f"self.params.get({key})", mode="eval").body)
@@ -150,8 +153,7 @@ def pull_guards_rule(ctx: Ctx, rule: str) -> None:
             if norm.equivalent(f, norm.neg(want_has)):
                 a, b, f = b, a, want_has
             app_ok = norm.equivalent(f, want_has) and a == [f"self.params[{key}] += ' ' + setup_location"] and b == [f"self.params[{key}] = setup_location"]
-        suffix = [ast.unparse(x.value) for x in l.body if isinstance(x, ast.Assign) and ast.unparse(x.targets[0]) == "object_suffix"]
-        ok = net_ok and dup_ok and app_ok and len(sk) == 2 and suffix == [f"'_' + {c}.long_suffix"]
+        ok = net_ok and dup_ok and app_ok and len(sk) == 2
         if not ok:
             why = f"a setup location is not handed to exactly the non-net objects of the edge once (nets skipped: {net_ok}, duplicate skipped: {dup_ok}, append/store: {app_ok})"
     ctx.record(rule, "TABLE", fref, "flat -> nothing; per location and per object of the edge: nets skipped, already listed -> skipped, else appended to (or stored as) get_location_<object>",
@@ -286,11 +288,107 @@ def pass_only_rule(ctx: Ctx, rule: str) -> None:
                "" if ok2 else "a worker id is credited with a result whose name does not contain it")
 
 
+def _truth_over_statuses(test: ast.AST, subject: str):
+    """For a boolean expression over comparisons of `subject` with constants: the statuses for which it is true (None if not interpretable)."""
+    def ev(n, s):
+        if isinstance(n, ast.BoolOp):
+            vals = [ev(v, s) for v in n.values]
+            if any(v is None for v in vals):
+                return None
+            return all(vals) if isinstance(n.op, ast.And) else any(vals)
+        if isinstance(n, ast.UnaryOp) and isinstance(n.op, ast.Not):
+            v = ev(n.operand, s)
+            return None if v is None else not v
+        if isinstance(n, ast.Compare) and len(n.ops) == 1 and ast.unparse(n.left) == subject:
+            c = n.comparators[0]
+            if isinstance(c, ast.Constant):
+                vals = c.value
+            elif isinstance(c, (ast.List, ast.Tuple, ast.Set)) and all(isinstance(e, ast.Constant) for e in c.elts):
+                vals = [e.value for e in c.elts]
+            else:
+                return None
+            op = n.ops[0]
+            if isinstance(op, ast.Eq):
+                return s == vals
+            if isinstance(op, ast.NotEq):
+                return s != vals
+            if isinstance(op, ast.In):
+                return s in vals
+            if isinstance(op, ast.NotIn):
+                return s not in vals
+        return None
+    out = set()
+    for s in STATUS_UNIVERSE_UP:
+        v = ev(test, s)
+        if v is None:
+            return None
+        if v:
+            out.add(s)
+    return out
+
+
+def pass_only_rule(ctx: Ctx, rule: str) -> None:
+    fref = f"{NODE}:TestNode.shared_result_worker_ids"
+    fn = ctx.repo.func(fref)
+    outer = [l for l in ast.walk(fn.node) if isinstance(l, ast.For) and ast.unparse(l.iter) == "self.shared_results"]
+    if len(outer) != 1 or not isinstance(outer[0].target, ast.Name):
+        raise AnalysisError(f"{fref}: loop over self.shared_results not found")
+    res = outer[0].target.id
+    views = function_views(ctx, fref, None)
+    ret = [n for n in ast.walk(fn.node) if isinstance(n, ast.Return)]
+    if len(ret) != 1 or not isinstance(ret[0].value, ast.Name):
+        raise AnalysisError(f"{fref}: expected a single `return <name>`")
+    acc = ret[0].value.id
+
+    def is_add(c: ast.Call) -> bool:
+        return call_name(c) in ("add", "update", "append", "extend") and recv_text(c) == acc
+
+    # which results credit their worker: exactly those of executions that provided the state (PASS, and WARN = passed with
+    # warnings; the runner itself turns an unusually slow PASS into WARN) — never a failed, skipped or pending one
+    skips = [i for i in outer[0].body if isinstance(i, ast.If) and len(i.body) == 1 and isinstance(i.body[0], ast.Continue) and not i.orelse
+             and f"{res}['status']" in ast.unparse(i.test)]
+    credited = None
+    if len(skips) == 1 and outer[0].body[0] is skips[0]:
+        skipped = _truth_over_statuses(skips[0].test, f"{res}['status']")
+        credited = None if skipped is None else set(STATUS_UNIVERSE_UP) - skipped
+    okc = credited == {"PASS", "WARN"}
+    ctx.record(rule, "TABLE", fref, "a result credits its worker as a producer exactly when its status is PASS or WARN", okc, {"credited": sorted(credited) if credited is not None else None},
+               "" if okc else (f"the statuses that credit a producing worker are {sorted(credited) if credited is not None else 'not a plain status test'}: "
+                               + ("a setup that ended WARN (e.g. a slow PASS, turned into WARN by the runner) produced its state but its worker's pool is not named to the dependants"
+                                  if credited is not None and "WARN" not in credited else "a worker is credited with a state it did not produce")))
+    # no other way to fill the accumulator
+    other = [n for n in ast.walk(fn.node) if isinstance(n, (ast.Assign, ast.AugAssign))
+             and acc in {t.id for t in ast.walk(n.targets[0] if isinstance(n, ast.Assign) else n.target) if isinstance(t, ast.Name)}]
+    ok = len(other) == 1 and isinstance(other[0], ast.Assign) and ast.unparse(other[0].value) == "set()"
+    ctx.record(rule + "b", "PROV", fref, f"{acc} starts empty and is only filled by the guarded add", ok, {},
+               "" if ok else "the set of producing workers can be filled by another statement")
+    # the id added is one whose text occurs in the result's name
+    adds = [c for c in calls_in(fn.node) if is_add(c)]
+    ok2 = False
+    if len(adds) == 1 and adds[0].args and isinstance(adds[0].args[0], ast.Name):
+        wid = adds[0].args[0].id
+        views2 = [v for v in views if any(c is adds[0] for _, c in v.calls(is_add))]
+        ok2 = bool(views2) and all(
+            norm.implies(v.premise(next(i for i, c in v.calls(is_add) if c is adds[0]), 0),
+                         norm.formula(ast.parse(f"{wid} in {res}['name']", mode="eval").body))
+            for v in views2)
+    ctx.record(rule + "c", "GUARD", fref, "a worker id is added only if it occurs in the crediting result's test name", ok2, {},
+               "" if ok2 else "a worker id is credited with a result whose name does not contain it")
+
+
 def pull_locations_rule(ctx: Ctx, rule: str) -> None:
     fref = f"{NODE}:TestNode.pull_locations"
     fn = ctx.repo.func(fref)
     ctx.require_locals(fref, ["setup_path"])
     ctx.touch(fref)
+    # hoisting a key into a local or inlining one is the same code: analyse with single-definition pure locals substituted
+    from ..canon import inline_locals
+
+    class _F:
+        pass
+    fn_i = _F()
+    fn_i.node = inline_locals(fn.node, keep={"setup_path"})
+    fn = fn_i
     loops = {ast.unparse(l.iter): l for l in ast.walk(fn.node) if isinstance(l, ast.For)}
     node_loop = loops.get("self.setup_nodes")
     if node_loop is None or not isinstance(node_loop.target, ast.Name):
